@@ -863,3 +863,51 @@ V("C19", "state_pop_forgets_time", "fire", "R19.d", (Z, """                g._Dy
 """, """                g._Dynamic_last = g._saved_Dynamic_last.pop()
 """))
 V("C19", "benign_produce_value_rewritten", "benign", None, (P, "            if force or time!=gen._Dynamic_time:", "            if force or not (time == gen._Dynamic_time):"))
+
+# ----------------------------------------------------------------- C01 / R01.h
+V("C01", "boolean_none_without_allow_none", "fire", "R01.h", (P, """        elif not isinstance(val, bool):
+            raise ValueError(
+                f"{_validate_error_prefix(self)} must be True or False, "
+""", """        elif not isinstance(val, bool) and val is not None:
+            raise ValueError(
+                f"{_validate_error_prefix(self)} must be True or False, "
+"""))
+V("C01", "string_none_always_accepted", "fire", "R01.h", (Z, """    def _validate_value(self, val, allow_None):
+        if allow_None and val is None:
+            return
+        if not isinstance(val, str):
+            raise ValueError(
+                f'{_validate_error_prefix(self)} only takes a string value, '
+""", """    def _validate_value(self, val, allow_None):
+        if val is None:
+            return
+        if not isinstance(val, str):
+            raise ValueError(
+                f'{_validate_error_prefix(self)} only takes a string value, '
+"""), (Z, """    def _validate_regex(self, val, regex):
+        if (val is None and self.allow_None):
+            return
+        if regex is not None and re.match(regex, val) is None:
+            raise ValueError(
+                f'{_validate_error_prefix(self)} value {val!r} does not '
+""", """    def _validate_regex(self, val, regex):
+        if val is None:
+            return
+        if regex is not None and re.match(regex, val) is None:
+            raise ValueError(
+                f'{_validate_error_prefix(self)} value {val!r} does not '
+"""))
+V("C01", "integer_type_check_dropped", "fire", "R01.h", (P, """        if not isinstance(val, _int_types):
+            raise ValueError(
+                f"{_validate_error_prefix(self)} must be an integer, "
+                f"not {type(val)}."
+            )
+""", """        return
+"""))
+V("C01", "list_rejects_none_despite_allow_none", "fire", "R01.h", (P, """    def _validate_value(self, val, allow_None):
+        if allow_None and val is None:
+            return
+        if not isinstance(val, list):""", """    def _validate_value(self, val, allow_None):
+        if not isinstance(val, list):"""))
+V("C01", "benign_callable_condition_reordered", "benign", None, (P, "        if (allow_None and val is None) or callable(val):\n            return\n        raise ValueError(\n            f\"{_validate_error_prefix(self)} only takes a callable object, \"",
+  "        if callable(val) or (val is None and allow_None):\n            return\n        raise ValueError(\n            f\"{_validate_error_prefix(self)} only takes a callable object, \""))
